@@ -310,14 +310,22 @@ func emit(c *eng.Ctx, tid, s, p, nops int, sc scenario, inflight int, dir string
 	}
 	c.W.Ev("Reboot", "res", res, "st", st, "size", size, "banned", banned, "mov", mov, "fix", fix, "content", content)
 	if res == "ok" {
-		// every key can be (deleted,) created and completed again
+		// every key can be (deleted,) created and completed again.  All restored blobs are deleted first and each
+		// key is deleted again after its turn, so that the probe itself never runs into the capacity limit
+		// (a store legitimately full of incomplete, unevictable blobs answers nospace).
+		delErr := make([]string, nk)
+		for i := 0; i < nk; i++ {
+			if st[i] != "absent" {
+				if err := store.Delete(keyName(i)); err != nil {
+					delErr[i] = "delete:" + blobstore.Classify(err)
+				}
+			}
+		}
 		for i := 0; i < nk; i++ {
 			k := keyName(i)
 			r := "ok"
-			if st[i] != "absent" {
-				if err := store.Delete(k); err != nil {
-					r = "delete:" + blobstore.Classify(err)
-				}
+			if delErr[i] != "" {
+				r = delErr[i]
 			}
 			if r == "ok" {
 				f, err := store.Create(k, 1)
@@ -337,6 +345,7 @@ func emit(c *eng.Ctx, tid, s, p, nops int, sc scenario, inflight int, dir string
 							r = "bytes"
 						}
 					}
+					store.Delete(k)
 				}
 			}
 			recreate[i] = r
